@@ -108,6 +108,9 @@ var groupings = []grouping{
 	{name: "twoDims", clause: `.groupBy('a', 'b')`, tags: [2]map[string]string{{"a": "x", "b": "1"}, {"a": "y", "b": "1"}}, meas: [2]string{"m", "m"}},
 	{name: "starExclude", clause: `|groupBy(*).exclude('c', 'who', 'z')`, tags: [2]map[string]string{{"a": "x", "c": "1"}, {"a": "x"}}, meas: [2]string{"m", "m"},
 		alt: []map[string]string{{"p": "1"}, {"p": "2"}}},
+	// exactly ONE dimension whose value contains the id's delimiters, next to a group that really has two dimensions (the
+	// attribution tag is excluded, so that the first group has a single dimension)
+	{name: "starOneDim", clause: `|groupBy(*).exclude('who')`, tags: [2]map[string]string{{"a": "x,b=y"}, {"a": "x", "b": "y"}}, meas: [2]string{"m", "m"}},
 	{name: "mixedKinds", clause: `.groupBy('a')`, tags: [2]map[string]string{{"a": "g"}, {"a": "h"}}, meas: [2]string{"m", "m"}, flt1: true},
 	{name: "byMeasurement", clause: `.groupBy('a').groupByMeasurement()`, tags: [2]map[string]string{{"a": "g"}, {"a": "g"}}, meas: [2]string{"m", "n"}},
 }
